@@ -5281,9 +5281,17 @@ func readWithRuns(b *Bitmap, data []byte, pos int, keyN uint32) error {
 	for i := 0; i < int(keyN); i++ {
 		citer.Next()
 		_, c := citer.Value()
+		// The container's data must lie inside the input: the slices set
+		// below are unchecked views of data.
 		switch c.typ() {
 		case containerRun:
+			if pos+runCountHeaderSize >= len(data) {
+				return fmt.Errorf("run container out of bounds: pos=%d, len=%d", pos, len(data))
+			}
 			runCount := binary.LittleEndian.Uint16(data[pos : pos+runCountHeaderSize])
+			if pos+runCountHeaderSize+int(runCount)*interval16Size > len(data) {
+				return fmt.Errorf("run container out of bounds: pos=%d, runs=%d, len=%d", pos, runCount, len(data))
+			}
 			// The official format stores runs as start:length, we want
 			// start:last. The conversion must not be done in place: data
 			// belongs to the caller (and may be read-only mmapped storage),
@@ -5296,11 +5304,17 @@ func readWithRuns(b *Bitmap, data []byte, pos int, keyN uint32) error {
 			}
 			c.setRuns(runs)
 			c.setMapped(false)
-			pos += int((runCount * interval16Size) + runCountHeaderSize)
+			pos += int(runCount)*interval16Size + runCountHeaderSize
 		case containerArray:
+			if pos+int(c.N())*2 > len(data) {
+				return fmt.Errorf("array container out of bounds: pos=%d, n=%d, len=%d", pos, c.N(), len(data))
+			}
 			c.setArray((*[0xFFFFFFF]uint16)(unsafe.Pointer(&data[pos]))[:c.N():c.N()])
 			pos += int(c.N() * 2)
 		case containerBitmap:
+			if pos+bitmapN*8 > len(data) {
+				return fmt.Errorf("bitmap container out of bounds: pos=%d, len=%d", pos, len(data))
+			}
 			c.setBitmap((*[0xFFFFFFF]uint64)(unsafe.Pointer(&data[pos]))[:bitmapN:bitmapN])
 			pos += bitmapN * 8
 		}
